@@ -1615,6 +1615,8 @@ func ExecGroupBy(query *Query, current []any) ([]any, error) {
 		return current, nil
 	}
 	grouped := make(map[*map[string]any][]any)
+	// groups in order of first appearance; ranging over the map would order them differently on every run
+	order := make([]*map[string]any, 0)
 	for _, item := range current {
 		innerMap := make(map[string]any)
 		for key := range query.groupDefinition {
@@ -1644,9 +1646,11 @@ func ExecGroupBy(query *Query, current []any) ([]any, error) {
 		}
 		grouped[&innerMap] = make([]any, 0)
 		grouped[&innerMap] = append(grouped[&innerMap], item)
+		order = append(order, &innerMap)
 	}
 	slice := make([]any, 0)
-	for key, item := range grouped {
+	for _, key := range order {
+		item := grouped[key]
 		current := make(Map)
 		for innerKey, innerValue := range *key {
 			current[innerKey] = innerValue
